@@ -274,3 +274,37 @@ Proof.
   - apply forallb_map_ext. rewrite Forall_forall in H. exact H.
   - apply forallb_map_ext. rewrite Forall_forall in H. exact H.
 Qed.
+
+Lemma ops_sf_self_alias : forall d, ops_spread_free (self_alias d) = ops_spread_free d.
+Proof.
+  intro d. unfold ops_spread_free. rewrite self_alias_rewrite, doc_ops_rewrite.
+  induction (doc_ops d) as [|o l IH]; cbn; [reflexivity|]. rewrite IH. f_equal.
+  unfold sf_sels. apply forallb_map_ext. intros; apply sa_sel_sf.
+Qed.
+
+Theorem norm_preserves_exec_partial_same_fuel : forall S U d fuel opn v,
+    (forall o, pick_op d opn = Some o ->
+               include_skip_ok (obj_members v) (effective_vars o (obj_members v)) d = true) ->
+    ops_spread_free (frag_inline S (include_skip (obj_members v) d)) = true ->
+    resp_le (execute fuel S U Mono d opn v) (execute fuel S U Mono (norm_proved S (obj_members v) d) opn v).
+Proof.
+  intros S U d fuel opn v Hok Hsf. unfold norm_proved.
+  eapply resp_le_trans; [apply include_skip_preserves_exec_partial; exact Hok|].
+  eapply resp_le_trans; [apply frag_inline_preserves_exec|].
+  eapply resp_le_trans; [apply self_alias_preserves_exec|].
+  eapply resp_le_trans; [apply remove_frag_defs_preserves_exec; rewrite ops_sf_self_alias; exact Hsf|].
+  apply dedup_preserves_exec.
+Qed.
+
+Theorem norm_preserves_exec_partial : forall S U d opn v,
+    (forall o, pick_op d opn = Some o ->
+               include_skip_ok (obj_members v) (effective_vars o (obj_members v)) d = true) ->
+    ops_spread_free (frag_inline S (include_skip (obj_members v) d)) = true ->
+    forall fuel fuel',
+      oof_b (rs_errs (execute fuel S U Mono d opn v)) = false ->
+      oof_b (rs_errs (execute fuel' S U Mono (norm_proved S (obj_members v) d) opn v)) = false ->
+      execute fuel' S U Mono (norm_proved S (obj_members v) d) opn v = execute fuel S U Mono d opn v.
+Proof.
+  intros S U d opn v Hok Hsf. apply two_fuel.
+  intro fuel. apply norm_preserves_exec_partial_same_fuel; assumption.
+Qed.
